@@ -1193,8 +1193,11 @@ func (db *DB) acquireReadLock(ctx context.Context) error {
 		return nil
 	}
 
-	// Start long running read-transaction to prevent checkpoints.
-	tx, err := db.db.BeginTx(ctx, nil)
+	// Start long running read-transaction to prevent checkpoints. It must
+	// outlive the caller's context: database/sql rolls a transaction back as
+	// soon as the context it was started with is canceled, which would silently
+	// drop the read lock after a request-scoped sync or checkpoint returns.
+	tx, err := db.db.BeginTx(context.WithoutCancel(ctx), nil)
 	if err != nil {
 		return err
 	}
